@@ -348,6 +348,8 @@ def run(ctx):
     _cannot_move(part)
     from .. import calcseq                 # pylint: disable=import-outside-toplevel
     part.merge(calcseq.explore(ctx, ['calculate_lm']))
+    from .. import callforms              # pylint: disable=import-outside-toplevel
+    part.merge(callforms.explore("C03"))
     cnt = part.counters
     coverage = {
         "states": cnt.get("states", 0),
@@ -392,6 +394,9 @@ def run(ctx):
 
 
 def replay(case):
+    if case.get("kind") == "callform":
+        from .. import callforms          # pylint: disable=import-outside-toplevel
+        return callforms.replay(case)
     if str(case.get("kind")).startswith("calc_"):
         from .. import calcseq             # pylint: disable=import-outside-toplevel
         return calcseq.replay(case)
